@@ -80,6 +80,9 @@ type RestAgent struct {
 	// map UUIDs to EIDs and received bundles
 	clients sync.Map // uuid[string] -> bpv7.EndpointID
 	mailbox sync.Map // uuid[string] -> []bpv7.Bundle
+
+	// mailboxMutex serializes the read-modify-write cycles on the mailbox of delivering and fetching bundles.
+	mailboxMutex sync.Mutex
 }
 
 // NewRestAgent creates a new RESTful Application Agent.
@@ -129,6 +132,9 @@ func (ra *RestAgent) receiveBundleMessage(msg BundleMessage) {
 		}
 		return true // multiple clients might be registered for some endpoint
 	})
+
+	ra.mailboxMutex.Lock()
+	defer ra.mailboxMutex.Unlock()
 
 	for _, uuid := range uuids {
 		var bundles []bpv7.Bundle
@@ -218,15 +224,19 @@ func (ra *RestAgent) handleFetch(w http.ResponseWriter, r *http.Request) {
 	if jsonErr := json.NewDecoder(r.Body).Decode(&fetchRequest); jsonErr != nil {
 		log.WithError(jsonErr).Warn("Failed to parse REST fetch request")
 		fetchResponse.Error = jsonErr.Error()
-	} else if val, ok := ra.mailbox.Load(fetchRequest.UUID); ok {
-		log.WithField("uuid", fetchRequest.UUID).Info("REST client fetches bundles")
-		fetchResponse.Bundles = val.([]bpv7.Bundle)
-		verifhook.At("agent.rest.fetch")
+	} else {
+		ra.mailboxMutex.Lock()
+		if val, ok := ra.mailbox.Load(fetchRequest.UUID); ok {
+			log.WithField("uuid", fetchRequest.UUID).Info("REST client fetches bundles")
+			fetchResponse.Bundles = val.([]bpv7.Bundle)
+			verifhook.At("agent.rest.fetch")
 
-		ra.mailbox.Delete(fetchRequest.UUID)
-	} else if !ok {
-		log.WithField("uuid", fetchRequest.UUID).Debug("REST client has no new bundles to fetch")
-		fetchResponse.Bundles = make([]bpv7.Bundle, 0)
+			ra.mailbox.Delete(fetchRequest.UUID)
+		} else {
+			log.WithField("uuid", fetchRequest.UUID).Debug("REST client has no new bundles to fetch")
+			fetchResponse.Bundles = make([]bpv7.Bundle, 0)
+		}
+		ra.mailboxMutex.Unlock()
 	}
 
 	w.Header().Set("Content-Type", "application/json")
